@@ -26,7 +26,11 @@ REQUIRED = ["Never.C06.context_error_propagates", "Never.C06.context_never_accep
             "Never.C06.const_lost_through_slice_assign_accepted_counterexample",
             "Never.C06.const_lost_through_slice_forin_accepted_counterexample",
             "Never.C06.const_tuple_members_to_var_params_accepted_counterexample",
-            "Never.C06.catch_clause_const_for_var_result_accepted_counterexample"]
+            "Never.C06.catch_clause_const_for_var_result_accepted_counterexample",
+            "Never.C06.rejects_empty_main_unit", "Never.C06.rejects_nameless_function",
+            "Never.C06.rejects_nameless_function_item", "Never.C06.rejects_iflet_branches",
+            "Never.C06.rejects_iflet_other_enum", "Never.C06.range_bound_name_assign_accepted_counterexample",
+            "Never.C06.slice_bound_name_assign_accepted_counterexample"]
 
 
 def check(tier, seed):
